@@ -169,6 +169,32 @@ Phase 3 (C02 C05 C09 C14)
   is too expensive to parse is checked on the CURRENT source text (every definition must be exactly `return member;`); members of
   `C<float, …>` without a floating expression of their own work in `float`.
 
+Phase 4 (C07) — spec option `dyn_sizes`: dynamic-size Eigen objects WITH their sizes
+* a `Matrix<T, Dynamic, Dynamic | 1>` (member, parameter, local, returned value) is an AGGREGATE of the leaves `m` (coefficients: a total
+  function of the indices, `Int → Int → α` / `Int → α`), `rows`, `cols` (`Int`; no `cols` for a vector): `J__m J__rows J__cols`, a returned
+  vector is `ret_m, ret_rows`. `M(i, j)` / `M(i, j) = x` read / update `m` (`dynSet1/2`, as in phase 3); `M(i, j) = N(j, i) = x` binds `x`
+  once and assigns from the innermost target outwards;
+* expressions are evaluated to such aggregates, the coefficient leaf of an intermediate value being a closed lambda term (binders ρ γ):
+  lvalues, `Matrix()` (0 x 0, zero function), `Identity(r, c) Zero(r, c) Zero(n) Ones(n) Constant(…, x)`, `a + b`, `a - b`, `a * s`, `s * a`,
+  `.transpose() .col(j) .head(n) .array() .matrix() .asDiagonal()`, `rows() cols() size()`, calls of translated member functions that return
+  a dynamic matrix; the PRODUCT `A * B` and `a.dot(b)` are EXPLICIT SUMS in index order with a leading zero, `dynSum n (fun κ => …)` =
+  `((0 + f 0) + f 1) + …` over the inner dimension `A.cols()` / `a.rows()` (the reading of the hand-written models' `sumTo`, so that the
+  bridge needs no algebraic law; Eigen's vectorised / unrolled reduction order is NOT represented — a trusted reading, tested only by the
+  correspondence check within its tolerance); every product is bound to a name (a nested product is evaluated into a temporary);
+* statements `X.resize(r, c)` / `X.resize(n)`: the sizes are set, the coefficients become `resize_<X> <old leaves> <new sizes>`, an
+  UNINTERPRETED function (Eigen keeps the storage iff the number of coefficients is unchanged and leaves it uninitialised otherwise: a
+  contract of the bridge, not of the translator); `X.setConstant(x) setZero() setOnes()`; `V.head(n).array() op= W.head(n).array()`,
+  `M.col(i).head(n).array() op= …` (`op` in `+ - * /`): the coefficients of the target region are combined, every other one is kept
+  (`fun ρ γ => if γ = i ∧ 0 ≤ ρ ∧ ρ < n then M ρ γ * W ρ else M ρ γ`); inside a loop the coefficient leaf is loop-carried;
+* `A.ldlt().solve(B)` (also `llt lu partialPivLu fullPivLu householderQr colPivHouseholderQr fullPivHouseholderQr`) is the uninterpreted
+  function `<decomposition>_solve` of the leaves of A and B (alphabetical: `cols m rows`), result `A.cols() x B.cols()`;
+* spec key `oracle_classes` (class name -> dict(methods = {name: [row term, column term]})): a LOCAL object of such a class
+  (`Eigen::JacobiSVD<Matrix> svd(A, flags);`) is the record of its constructor arguments — dynamic matrices, floating scalars, and for any
+  other side-effect-free argument its normalised SOURCE TEXT as a string (`"ComputeThinU|ComputeThinV"`: enumerators of namespaces the
+  dump does not hold) —; a listed method is the uninterpreted function `<Class>_<method>` of them, with the shape the spec gives
+  (`{r0} {c0}` = rows / columns of argument 0); any other method makes the function untranslatable;
+* `member_()` in a constructor's initialiser list (value-initialisation of a scalar) is zero.
+
 Anything else (function-local `static`, writes to globals, unknown calls, unsupported statements) makes the function
 UNTRANSLATABLE: the generated file then holds a comment with the reason and no definition of that name, so that the
 bridge theorem about it no longer compiles.
@@ -176,7 +202,7 @@ bridge theorem about it no longer compiles.
 Spec-wide keys, besides `id sources headers extra filter extra_filters macros imports opens functions uninterpreted externs strip_ns`:
 `vector_encoding` ('checked' | 'plain'), `opaque_elements`, `incr_encoding` ('inline' | 'let'), `unsigned_wrap`,
 `fold_constant_conditions`, `unroll_constant_loops`, `abstract_classes` (list of class names), `whole_containers`, `range_for`,
-`oracles`, `source_getters` (phase 3). The defaults give the first-listed / option-less reading. A fixed-size `Eigen::Array<T, r, c>` has the
+`oracles`, `source_getters` (phase 3), `dyn_sizes`, `oracle_classes` (phase 4). The defaults give the first-listed / option-less reading. A fixed-size `Eigen::Array<T, r, c>` has the
 leaves of the `Matrix` of that shape.
 Only the Python standard library is used.
 """
@@ -533,6 +559,8 @@ def classify(t):
         return 'seq'       # sequence container in the plain encoding (std::queue / std::deque: always)
     if LIST_OPTS['encoding'] == 'checked' and vec_elem(t) is not None and classify(vec_elem(t)) in ('double', 'float', 'int', 'uint', 'bool'):
         return 'list'      # std::vector of scalars in the checked encoding
+    if DYN_RE.match(t) and LIST_OPTS.get('dyn_sizes') and not t.endswith(DYN_COEF):
+        return 'agg'       # phase 4 (spec option `dyn_sizes`): coefficients + sizes, an aggregate of 2 / 3 leaves
     if DYN_RE.match(t):
         return 'dyn'       # phase 3: Eigen::Matrix<T, Dynamic, Dynamic | 1>: a functional array (one leaf)
     return 'agg'
@@ -542,6 +570,8 @@ def classify(t):
 #      (`Int → Int → α` / `Int → α`); sizes are not tracked (Eigen's operator() is unchecked under NDEBUG: an out-of-range access is
 #      undefined behaviour and is not detected)
 DYN_RE = re.compile(r'^(?:Eigen::)?Matrix<\s*(double|float)\s*,\s*-1\s*,\s*(-1|1)\b')
+DYN_COEF = '/*coef*/'      # phase 4: pseudo C++ type of the coefficient leaf `m` of a dynamic matrix WITH sizes (`dyn_sizes`)
+DYNX_RE = re.compile(r'\bMatrix<\s*(double|float)\s*,\s*-1\s*,\s*(-1|1)\b')      # anywhere in an expression-template type
 
 
 def dyn_info(t):
@@ -589,7 +619,7 @@ def is_atomic(t):
 
 
 # ---- sequence containers as Lean lists (std::vector / std::queue / std::deque of scalars; of opaque elements when the spec asks)
-LIST_OPTS = {'opaque': False, 'encoding': 'checked'}      # set per spec by translate()
+LIST_OPTS = {'opaque': False, 'encoding': 'checked', 'dyn_sizes': False}      # set per spec by translate()
 LIST_RE = re.compile(r'^(?:std::)?(?:__cxx11::)?(vector|queue|deque)<')
 
 
@@ -717,6 +747,15 @@ class Sc:
 
     def __repr__(self):
         return 'Sc(%s:%s)' % (self.t, self.ty)
+
+
+class ScF(Sc):
+    """phase 4: a functional-array value given by a closed lambda term `t`; `app(idx)` is its body at the index terms `idx`"""
+    __slots__ = ('app',)
+
+    def __init__(self, t, ty, app):
+        Sc.__init__(self, t, ty)
+        self.app = app
 
 
 class _TyLean(dict):
@@ -1204,6 +1243,8 @@ class Translator:
     def shape_of(self, ctype):
         """leaf paths (with C++ scalar type) of a small aggregate type"""
         t = strip_cv(ctype)
+        if LIST_OPTS.get('dyn_sizes') and dyn_info(t) is not None and not t.endswith(DYN_COEF):      # phase 4: coefficients + sizes
+            return [(['m'], t + DYN_COEF), (['rows'], 'long')] + ([(['cols'], 'long')] if dyn_info(t)[1] == 2 else [])
         m = re.search(r'Matrix<\s*([\w ]+?)\s*,\s*(-?\d+)\s*,\s*(-?\d+)', t)
         if not m and 'Eigen::Array' in t:      # a fixed-size Eigen::Array has the leaves of the Matrix of the same shape
             m = re.search(r'Array<\s*([\w ]+?)\s*,\s*(-?\d+)\s*,\s*(-?\d+)', t)
@@ -1367,6 +1408,15 @@ class Translator:
             return self.eval_wrapper_call(n, env, pre)
         if k in ('CXXConstructExpr', 'CXXTemporaryObjectExpr', 'CXXScalarValueInitExpr', 'ImplicitValueInitExpr') and scalar_wrapper(type_of(n)) is not None:
             return self.wrapper_construct(n, env, pre)
+        if k in ('ImplicitValueInitExpr', 'CXXScalarValueInitExpr') and classify(type_of(n)) in ('int', 'uint', 'double', 'float', 'bool'):
+            c4 = classify(type_of(n))      # phase 4: `member_()` in a constructor's initialiser list: value-initialisation = zero
+            if c4 in ('int', 'uint'):
+                return sc_lit(Sc('0', 'i'), 0)
+            if c4 == 'bool':
+                return Sc('false', 'b')
+            ty4 = self.tyvar(frame, type_of(n))
+            frame.need('NatCast', ty4)
+            return Sc('((0 : Nat) : %s)' % TY_LEAN[ty4], ty4)
         if k == 'IntegerLiteral':
             v = int(n.get('value'))
             sc = Sc(str(v), 'i')
@@ -1723,6 +1773,10 @@ class Translator:
     def eval_call(self, n, env, pre):
         frame = env.frame
         k = n.get('kind')
+        if self.spec.get('dyn_sizes'):      # phase 4: `rows()`, `dot`, `resize`, `setConstant` … on dynamic-size Eigen objects
+            r4 = self.dynx_call(n, env, pre)
+            if r4 is not NotImplemented:
+                return r4
         if k == 'CXXMemberCallExpr' and self.list_method(n) is not None:
             return self.eval_list_call(n, env, pre)
         if k == 'CXXMemberCallExpr' and self.wrapper_method(n) is not None:
@@ -2767,6 +2821,8 @@ class Translator:
             return self.eval(n, env, pre)
         m = strip_noop(n)
         k = m.get('kind')
+        if self.spec.get('dyn_sizes') and DYNX_RE.search(ct):      # phase 4: an expression on dynamic-size Eigen objects
+            return self.dynx_eval(m, env, pre)
         if self.is_list_index(m):
             return self.list_get(m, env, pre)
         if k in ('DeclRefExpr', 'MemberExpr') and m.get('valueCategory') == 'lvalue' and self.is_list(type_of(m)):
@@ -2851,6 +2907,11 @@ class Translator:
                    "def dynSet2 {β : Type} (M : Int → Int → β) (i j : Int) (x : β) : Int → Int → β := fun a b => if a = i ∧ b = j then x else M a b",
         'dynSet1': "/-- `v(i) = x` on a dynamic-size Eigen vector seen as a functional array (sizes are not tracked) -/\n"
                    "def dynSet1 {β : Type} (v : Int → β) (i : Int) (x : β) : Int → β := fun a => if a = i then x else v a",
+        'dynSum': "/-- `Σ_{0 ≤ κ < n} f κ`, accumulated upwards from 0 (`((0 + f 0) + f 1) + …`): the explicit-sum reading of Eigen's dynamic-size products / `dot` -/\n"
+                  "def dynSumN {β : Type} [NatCast β] [Add β] : Nat → (Int → β) → β\n"
+                  "  | 0, _ => ((0 : Nat) : β)\n"
+                  "  | n + 1, f => dynSumN n f + f (n : Int)\n"
+                  "def dynSum {β : Type} [NatCast β] [Add β] (n : Int) (f : Int → β) : β := dynSumN n.toNat f",
         'vecResize': "/-- `v.resize(n)` on a `std::vector`: truncated, or extended with value-initialised elements `z` -/\n"
                      "def vecResize {β : Type} (v : List β) (n : Int) (z : β) : List β := v.take n.toNat ++ List.replicate (n.toNat - v.length) z",
         'mapInsertNew': "/-- `std::map::insert(value)` on the entry list of a map (ascending keys): a key that is present keeps its value -/\n"
@@ -3938,7 +3999,11 @@ class Translator:
         m = strip_noop(n)
         bn = strip_noop(m['inner'][1])
         root, path = self.resolve_lvalue(bn, env)
-        ty = self.tyvar(env.frame, type_of(bn))
+        if self.spec.get('dyn_sizes'):      # phase 4: the coefficient leaf `m` of the (coefficients, sizes) aggregate
+            path = list(path) + ['m']
+            ty = self.tyvar(env.frame, strip_cv(type_of(bn)) + DYN_COEF)
+        else:
+            ty = self.tyvar(env.frame, type_of(bn))
         cur = self.read_leaf(env, root, path, ty)
         idx = [self.eval(a, env, pre) for a in m['inner'][2:]]
         if any(i.ty != 'i' for i in idx):
@@ -3968,6 +4033,479 @@ class Translator:
         name = frame.fresh(path_name(self.root_name(frame, root), path))
         self.write(env, root, path, Sc(name, ty))
         return self.wrap(pre, ('let', name, '%s %s %s %s' % (helper, par(cur.t), ' '.join(par(i.t) for i in idx), par(v.t)), k(env)))
+
+    # ================================================================== phase 4 (spec option `dyn_sizes`): dynamic-size Eigen objects WITH
+    # their sizes. A dynamic matrix / vector is an aggregate of the leaves `m` (coefficients: a total function of the indices), `rows`,
+    # `cols` (Int; no `cols` for a vector). Expressions are evaluated to such aggregates; the coefficient leaf of an intermediate value
+    # is a closed lambda term (binders ρ γ; κ for the index of a sum).
+    def dx_val(self, frame, nidx, sty, fn, rows, cols=None):
+        """a dynamic value whose coefficient at the index terms `idx` is `fn(idx)`"""
+        binders = ['ρ', 'γ'][:nidx]
+        sc = ScF('(fun %s => %s)' % (' '.join(binders), unpar(fn(binders))), 'M%d%s' % (nidx, sty), fn)
+        res = {'m': sc, 'rows': rows}
+        if nidx == 2:
+            res['cols'] = cols
+        return res
+
+    @staticmethod
+    def dx_at(v, idx):
+        """coefficient term of the dynamic value `v` at the index terms `idx`"""
+        sc = v['m']
+        app = getattr(sc, 'app', None)
+        if app is not None:
+            return app(list(idx))
+        return '(%s %s)' % (par(sc.t), ' '.join(par(i) for i in idx))
+
+    @staticmethod
+    def dx_nidx(v):
+        return 2 if 'cols' in v else 1
+
+    def dx_scalar_ty(self, ct, frame):
+        mm = DYNX_RE.search(ct)
+        return self.tyvar(frame, mm.group(1))
+
+    def dx_bind(self, frame, pre, base, v):
+        """bind the coefficient function of a dynamic value to a fresh name (so that it is a closed term when it is used inside a sum)"""
+        if pre is None:
+            raise Untranslatable('dynamic-size product inside a conditionally evaluated expression')
+        sc = v['m']
+        nm = frame.fresh(base)
+        pre.append(('let', nm, unpar(sc.t)))
+        out = dict(v)
+        out['m'] = Sc(nm, sc.ty)
+        return out
+
+    def dx_sum(self, frame, sty, n_t, body):
+        """`Σ_{0 ≤ κ < n} body(κ)`, accumulated upwards from 0 — an EXPLICIT SUM in index order with a leading zero (the reading of the
+        hand-written models' `sumTo`); Eigen's vectorised / unrolled reduction order is not represented (trusted reading)"""
+        self.need_helper('dynSum')
+        frame.need('Add', sty)
+        frame.need('NatCast', sty)
+        return '(dynSum %s (fun κ => %s))' % (par(n_t), unpar(body('κ')))
+
+    def oracle_class_of(self, ct):
+        """spec key `oracle_classes` (class name -> dict(methods = {name: [shape terms]})): the entry a C++ type belongs to"""
+        oc = self.spec.get('oracle_classes')
+        if not oc:
+            return None
+        t = strip_cv(ct)
+        for nm in oc:
+            if re.match(r'^(?:Eigen::)?%s<' % re.escape(nm), t):
+                return nm
+        return None
+
+    def exec_oracle_local(self, v, init, env, k):
+        """`Eigen::JacobiSVD<Matrix> svd(A, flags);`: a local object of a class listed in `oracle_classes` is the record of its constructor
+        arguments — dynamic matrices (coefficients, sizes), scalars, and, for anything else that is a constant expression (enumerators of a
+        namespace the dump does not hold), the normalised SOURCE TEXT as a string; its methods are uninterpreted functions of them"""
+        vid = v['id']
+        if len(init) != 1 or strip_noop(init[0]).get('kind') != 'CXXConstructExpr':
+            raise Untranslatable('oracle object `%s` without a constructor call' % v.get('name'))
+        pre = []
+        obj = {}
+        args = [c for c in strip_noop(init[0]).get('inner', []) or [] if c.get('kind') != 'CXXDefaultArgExpr']
+        if not args:
+            raise Untranslatable('oracle object `%s` constructed without arguments' % v.get('name'))
+        for i, a in enumerate(args):
+            at = type_of(a)
+            if DYNX_RE.search(at):
+                val = self.dynx_eval(strip_noop(a), env, pre)
+                if not re.match(r"^[A-Za-z_][A-Za-z0-9_']*$", val['m'].t):
+                    val = self.dx_bind(env.frame, pre, '%s_arg%d' % (v.get('name'), i), val)
+                obj['a%d' % i] = val
+            elif classify(at) in ('double', 'float', 'bool'):
+                obj['a%d' % i] = self.eval(a, env, pre)
+            else:
+                if self.has_side_effect(a) or self.contains(a, ('CallExpr', 'CXXMemberCallExpr', 'CXXOperatorCallExpr')):
+                    raise Untranslatable('argument %d of the oracle object `%s`' % (i, v.get('name')))
+                txt = re.sub(r'\s+', '', self.tu.range_text(a)).replace('Eigen::', '')
+                if not re.match(r'^[\w|&+():]*$', txt):
+                    raise Untranslatable('argument %d of the oracle object `%s`: `%s`' % (i, v.get('name'), txt[:60]))
+                obj['a%d' % i] = Sc('"%s"' % txt, 's')
+        env.local_roots.add(vid)
+        env.vars[vid] = obj
+        return self.wrap(pre, k(env))
+
+    def oracle_method(self, m, env, pre):
+        """`svd.matrixU()` on a local oracle object: `<Class>_<method> <constructor arguments…>`, an uninterpreted function; the shape of
+        the result comes from the spec (`{r0}`, `{c0}` = rows / columns of constructor argument 0)"""
+        frame = env.frame
+        callee = self.callee_ref(m)
+        base = strip_noop(callee['inner'][0])
+        cls = self.oracle_class_of(type_of(base))
+        nm = callee.get('name')
+        meth = (self.spec['oracle_classes'][cls].get('methods') or {}).get(nm)
+        if meth is None or len(m['inner']) != 1:
+            raise Untranslatable('method `%s` of the oracle class %s is not in the spec' % (nm, cls))
+        if base.get('kind') != 'DeclRefExpr':
+            raise Untranslatable('oracle method on something that is not a local object')
+        rid = (base.get('referencedDecl') or {}).get('id')
+        e, obj = env, None
+        while e is not None and obj is None:
+            obj = e.vars.get(rid)
+            e = e.outer
+        if not isinstance(obj, dict) or env.outer is not None:
+            raise Untranslatable('oracle object `%s` is not a local of this function body' % base.get('name', '?'))
+        lv = leaves(obj)
+        sty = self.dx_scalar_ty(type_of(base), frame)
+        nidx = len(meth)
+        fmt = {}
+        for key, val in obj.items():
+            if isinstance(val, dict) and 'rows' in val:
+                fmt['r' + key[1:]] = par(val['rows'].t)
+                fmt['c' + key[1:]] = par(val['cols'].t) if 'cols' in val else '1'
+        rty = 'M%d%s' % (nidx, sty)
+        fty = ' → '.join([TY_LEAN[sc.ty] for _, sc in lv] + [TY_LEAN[rty]])
+        fn = self.uninterp_param(env, lean_ident('%s_%s' % (cls, nm)), fty)
+        name = frame.fresh('%s_%s' % (base.get('name', 'o'), nm))
+        if pre is None:
+            raise Untranslatable('oracle method inside a conditionally evaluated expression')
+        pre.append(('let', name, '%s %s' % (fn, ' '.join(par(sc.t) for _, sc in lv))))
+        res = {'m': Sc(name, rty), 'rows': Sc(meth[0].format(**fmt), 'i')}
+        if nidx == 2:
+            res['cols'] = Sc(meth[1].format(**fmt), 'i')
+        return res
+
+    def dynx_eval(self, m, env, pre):
+        """value (aggregate `m rows [cols]`) of an expression on dynamic-size Eigen objects"""
+        frame = env.frame
+        m = strip_noop(m)
+        k = m.get('kind')
+        ct = type_of(m)
+        sty = self.dx_scalar_ty(ct, frame)
+        tv = TY_LEAN[sty]
+        zero = '((0 : Nat) : %s)' % tv
+        one = '((1 : Nat) : %s)' % tv
+        if k in ('CXXConstructExpr', 'CXXTemporaryObjectExpr'):
+            a = [c for c in m.get('inner', []) or [] if c.get('kind') != 'CXXDefaultArgExpr']
+            if not a:      # `Matrix()`: no coefficient at all (the total function is zero everywhere)
+                frame.need('NatCast', sty)
+                nidx = dyn_info(ct)[1] if dyn_info(ct) else None
+                if nidx is None:
+                    raise Untranslatable('default construction of %s' % strip_cv(ct)[:80])
+                return self.dx_val(frame, nidx, sty, lambda idx: zero, sc_lit(Sc('0', 'i'), 0), sc_lit(Sc('0', 'i'), 0))
+            if len(a) == 1 and DYNX_RE.search(type_of(a[0])):
+                return self.dynx_eval(a[0], env, pre)
+            raise Untranslatable('constructor call of %s with %d arguments' % (strip_cv(ct)[:80], len(a)))
+        if k in ('DeclRefExpr', 'MemberExpr') and dyn_info(ct) is not None:
+            root, path = self.resolve_lvalue(m, env)
+            return self.read_obj(env, root, path, ct)
+        if k == 'CallExpr':
+            nm = (self.callee_ref(m).get('referencedDecl') or {}).get('name')
+            args = m['inner'][1:]
+            if nm in ('Identity', 'Zero', 'Ones', 'Constant'):
+                nidx = 2 if DYNX_RE.search(ct).group(2) == '-1' else 1
+                nsz = len(args) - (1 if nm == 'Constant' else 0)
+                if nsz != nidx:
+                    raise Untranslatable('%s with %d size arguments for %d indices' % (nm, nsz, nidx))
+                sz = [self.eval(a, env, pre) for a in args[:nsz]]
+                if any(s_.ty != 'i' for s_ in sz):
+                    raise Untranslatable('size argument of %s that is not an integer' % nm)
+                frame.need('NatCast', sty)
+                if nm == 'Identity':
+                    fn = lambda idx: '(if %s = %s then %s else %s)' % (idx[0], idx[1], one, zero)
+                elif nm == 'Constant':
+                    x = self.convert(self.eval(args[-1], env, pre), frame, DYNX_RE.search(ct).group(1))
+                    fn = lambda idx: x.t
+                else:
+                    fn = lambda idx: one if nm == 'Ones' else zero
+                return self.dx_val(frame, nidx, sty, fn, sz[0], sz[1] if nidx == 2 else None)
+            raise Untranslatable('call `%s` on dynamic-size Eigen objects' % nm)
+        if k == 'CXXOperatorCallExpr':
+            nm = (self.callee_ref(m).get('referencedDecl') or {}).get('name')
+            ops = m['inner'][1:]
+            if nm in ('operator*', 'operator+', 'operator-') and len(ops) == 2:
+                dyn = [bool(DYNX_RE.search(type_of(x))) for x in ops]
+                if dyn == [True, True]:
+                    A = self.dynx_eval(ops[0], env, pre)
+                    B = self.dynx_eval(ops[1], env, pre)
+                    if nm == 'operator*':
+                        if self.dx_nidx(A) != 2:
+                            raise Untranslatable('dynamic-size product whose left factor is a vector')
+                        if not re.match(r"^[A-Za-z_][A-Za-z0-9_']*$", A['m'].t):
+                            A = self.dx_bind(frame, pre, 'fac', A)
+                        if not re.match(r"^[A-Za-z_][A-Za-z0-9_']*$", B['m'].t):
+                            B = self.dx_bind(frame, pre, 'fac', B)
+                        frame.need('Mul', sty)
+                        inner_t = A['cols'].t      # Eigen: the inner dimension is lhs.cols() (asserted equal to rhs.rows())
+                        if self.dx_nidx(B) == 2:
+                            fn = lambda idx: self.dx_sum(frame, sty, inner_t, lambda kk: '(%s * %s)' % (self.dx_at(A, [idx[0], kk]), self.dx_at(B, [kk, idx[1]])))
+                            P = self.dx_val(frame, 2, sty, fn, A['rows'], B['cols'])
+                        else:
+                            fn = lambda idx: self.dx_sum(frame, sty, inner_t, lambda kk: '(%s * %s)' % (self.dx_at(A, [idx[0], kk]), self.dx_at(B, [kk])))
+                            P = self.dx_val(frame, 1, sty, fn, A['rows'])
+                        return self.dx_bind(frame, pre, 'prod', P)      # a (nested) product is evaluated into a temporary
+                    if self.dx_nidx(A) != self.dx_nidx(B):
+                        raise Untranslatable('coefficient-wise %s of a matrix and a vector' % nm)
+                    op, cls = self.EIG_BIN[nm]
+                    frame.need(cls, sty)
+                    fn = lambda idx: '(%s %s %s)' % (self.dx_at(A, idx), op, self.dx_at(B, idx))
+                    return self.dx_val(frame, self.dx_nidx(A), sty, fn, A['rows'], A.get('cols'))
+                if nm == 'operator*' and dyn in ([True, False], [False, True]):
+                    A = self.dynx_eval(ops[0 if dyn[0] else 1], env, pre)
+                    x = self.eval(ops[1 if dyn[0] else 0], env, pre)
+                    x = self.convert(x, frame, DYNX_RE.search(ct).group(1))
+                    if not re.match(r"^[A-Za-z_][A-Za-z0-9_']*$", x.t) and not x.t.startswith('(('):
+                        nmx = frame.fresh('factor')
+                        pre.append(('let', nmx, unpar(x.t)))
+                        x = Sc(nmx, x.ty)
+                    frame.need('Mul', sty)
+                    if dyn[0]:
+                        fn = lambda idx: '(%s * %s)' % (self.dx_at(A, idx), par(x.t))
+                    else:
+                        fn = lambda idx: '(%s * %s)' % (par(x.t), self.dx_at(A, idx))
+                    return self.dx_val(frame, self.dx_nidx(A), sty, fn, A['rows'], A.get('cols'))
+            raise Untranslatable('operator call %s on dynamic-size Eigen objects' % nm)
+        if k == 'CXXMemberCallExpr':
+            callee = self.callee_ref(m)
+            nm = callee.get('name')
+            base = callee['inner'][0] if callee.get('inner') else None
+            args = m['inner'][1:]
+            if base is not None and self.oracle_class_of(type_of(strip_noop(base))) is not None:
+                return self.oracle_method(m, env, pre)
+            decl = self.method_def(callee.get('referencedMemberDecl'))
+            if decl is not None:      # a translated member function that returns a dynamic matrix
+                v = self.call_fn(decl, self.resolve_lvalue(base, env), args, env, pre)
+                if not isinstance(v, dict) or 'm' not in v:
+                    raise Untranslatable('call of %s: no dynamic-size result' % nm)
+                return v
+            if nm == 'solve' and len(args) == 1 and strip_noop(base).get('kind') == 'CXXMemberCallExpr':
+                # `A.ldlt().solve(B)`: an uninterpreted function `<decomposition>_solve` of A and B (coefficients and sizes); the result has
+                # A.cols() rows and B.cols() columns
+                inner = strip_noop(base)
+                dn = self.callee_ref(inner).get('name')
+                if dn not in ('ldlt', 'llt', 'lu', 'partialPivLu', 'fullPivLu', 'householderQr', 'colPivHouseholderQr', 'fullPivHouseholderQr') \
+                        or len(inner['inner']) != 1:
+                    raise Untranslatable('solve() on `%s`' % dn)
+                A = self.dynx_eval(self.callee_ref(inner)['inner'][0], env, pre)
+                B = self.dynx_eval(args[0], env, pre)
+                if self.dx_nidx(A) != 2:
+                    raise Untranslatable('decomposition of a vector')
+                if pre is None:
+                    raise Untranslatable('solver call inside a conditionally evaluated expression')
+                lv = leaves(A) + leaves(B)
+                rty = 'M%d%s' % (self.dx_nidx(B), sty)
+                fty = ' → '.join([TY_LEAN[sc.ty] for _, sc in lv] + [TY_LEAN[rty]])
+                fn = self.uninterp_param(env, lean_ident('%s_solve' % dn), fty)
+                name = frame.fresh('%s_solve' % dn)
+                pre.append(('let', name, '%s %s' % (fn, ' '.join(par(sc.t) for _, sc in lv))))
+                res = {'m': Sc(name, rty), 'rows': A['cols']}
+                if self.dx_nidx(B) == 2:
+                    res['cols'] = B['cols']
+                return res
+            if base is None or not DYNX_RE.search(type_of(base)):
+                raise Untranslatable('member call `%s` on dynamic-size Eigen objects' % nm)
+            A = self.dynx_eval(base, env, pre)
+            if nm in ('array', 'matrix', 'eval') and not args:
+                return A
+            if nm == 'transpose' and not args:
+                if self.dx_nidx(A) != 2:
+                    raise Untranslatable('transpose of a dynamic-size vector')
+                return self.dx_val(frame, 2, sty, lambda idx: self.dx_at(A, [idx[1], idx[0]]), A['cols'], A['rows'])
+            if nm == 'col' and len(args) == 1 and self.dx_nidx(A) == 2:
+                j = self.eval(args[0], env, pre)
+                if j.ty != 'i':
+                    raise Untranslatable('column index that is not an integer')
+                return self.dx_val(frame, 1, sty, lambda idx: self.dx_at(A, [idx[0], par(j.t)]), A['rows'])
+            if nm == 'head' and len(args) == 1 and self.dx_nidx(A) == 1:
+                cnt = self.eval(args[0], env, pre)
+                if cnt.ty != 'i':
+                    raise Untranslatable('head() with a size that is not an integer')
+                out = dict(A)
+                out['rows'] = cnt
+                return out
+            if nm == 'asDiagonal' and not args and self.dx_nidx(A) == 1:
+                frame.need('NatCast', sty)
+                return self.dx_val(frame, 2, sty, lambda idx: '(if %s = %s then %s else %s)' % (idx[0], idx[1], self.dx_at(A, [idx[0]]), zero),
+                                   A['rows'], A['rows'])
+            raise Untranslatable('member call `%s` on dynamic-size Eigen objects' % nm)
+        raise Untranslatable('unsupported expression %s on dynamic-size Eigen objects' % k)
+
+    def dynx_call(self, n, env, pre):
+        """calls on dynamic-size Eigen objects with a scalar / no result: `rows() cols() size()`, `a.dot(b)`, and the statements
+        `resize(…)`, `setConstant(x)`, `setZero()`, `setOnes()` on an lvalue. NotImplemented = not such a call."""
+        if n.get('kind') != 'CXXMemberCallExpr':
+            return NotImplemented
+        callee = self.callee_ref(n)
+        nm = callee.get('name')
+        base = callee['inner'][0] if callee.get('inner') else None
+        if base is None or not DYNX_RE.search(type_of(base)) or self.oracle_class_of(type_of(strip_noop(base))) is not None:
+            return NotImplemented
+        frame = env.frame
+        args = n['inner'][1:]
+        sty = self.dx_scalar_ty(type_of(base), frame)
+        if nm in ('rows', 'cols', 'size') and not args:
+            A = self.dynx_eval(base, env, pre)
+            if nm == 'rows':
+                return A['rows']
+            if nm == 'cols':
+                return A['cols'] if 'cols' in A else sc_lit(Sc('1', 'i'), 1)
+            return Sc('(%s * %s)' % (par(A['rows'].t), par(A['cols'].t)), 'i') if 'cols' in A else A['rows']
+        if nm == 'dot' and len(args) == 1:
+            A = self.dynx_eval(base, env, pre)
+            B = self.dynx_eval(args[0], env, pre)
+            if self.dx_nidx(A) != 1 or self.dx_nidx(B) != 1:
+                raise Untranslatable('dot() of dynamic-size matrices')
+            frame.need('Mul', sty)
+            return Sc(self.dx_sum(frame, sty, A['rows'].t, lambda kk: '(%s * %s)' % (self.dx_at(A, [kk]), self.dx_at(B, [kk]))), sty)
+        if nm in ('resize', 'setConstant', 'setZero', 'setOnes'):
+            bn = strip_noop(base)
+            if pre is None or bn.get('kind') not in ('MemberExpr', 'DeclRefExpr') or dyn_info(type_of(bn)) is None:
+                raise Untranslatable('`%s` on something that is not a dynamic-size matrix variable' % nm)
+            root, path = self.resolve_lvalue(bn, env)
+            cur = self.read_obj(env, root, path, type_of(bn))
+            nidx = self.dx_nidx(cur)
+            tv = TY_LEAN[sty]
+            if nm == 'resize':
+                # Eigen: the coefficients are kept (same storage, reinterpreted column-major) iff rows*cols does not change, otherwise they
+                # are UNINITIALISED: an uninterpreted function `resize_<member>` of the old coefficients / sizes and the new sizes
+                if len(args) != nidx:
+                    raise Untranslatable('resize with %d arguments on an object with %d indices' % (len(args), nidx))
+                sz = [self.eval(a, env, pre) for a in args]
+                if any(s_.ty != 'i' for s_ in sz):
+                    raise Untranslatable('resize to a size that is not an integer')
+                lv = [sc for _, sc in leaves(cur)] + sz
+                fty = ' → '.join([TY_LEAN[sc.ty] for sc in lv] + [TY_LEAN[cur['m'].ty]])
+                fn = self.uninterp_param(env, lean_ident('resize_' + path_name('', path)), fty)
+                new = {'m': Sc('(%s %s)' % (fn, ' '.join(par(sc.t) for sc in lv)), cur['m'].ty), 'rows': sz[0]}
+                if nidx == 2:
+                    new['cols'] = sz[1]
+            else:
+                frame.need('NatCast', sty)
+                if nm == 'setConstant':
+                    if len(args) != 1:
+                        raise Untranslatable('setConstant with sizes')
+                    x = self.convert(self.eval(args[0], env, pre), frame, DYNX_RE.search(type_of(base)).group(1))
+                else:
+                    if args:
+                        raise Untranslatable('%s with sizes' % nm)
+                    x = Sc('((%d : Nat) : %s)' % (1 if nm == 'setOnes' else 0, tv), sty)
+                new = self.dx_val(frame, nidx, sty, lambda idx: x.t, cur['rows'], cur.get('cols'))
+            # bind the new leaves to names and write them
+            out = {}
+            for key in sorted(new.keys()):
+                sc = new[key]
+                if re.match(r"^[A-Za-z_][A-Za-z0-9_']*$", sc.t) or getattr(sc, 'lit', None) is not None:
+                    out[key] = sc
+                else:
+                    name = frame.fresh(path_name(self.root_name(frame, root), list(path) + [key]))
+                    pre.append(('let', name, unpar(sc.t)))
+                    out[key] = Sc(name, sc.ty)
+            self.write(env, root, list(path), out)
+            return None
+        return NotImplemented
+
+    def dynx_view(self, n, env):
+        """`V`, `V.head(n)`, `M.col(i)`, `M.col(i).head(n)` (through `.array()` / `.matrix()`) as an ASSIGNMENT TARGET:
+        (root, path of the coefficient leaf, its pseudo C++ type, base node, [('head', node) | ('col', node)] outermost first); None otherwise"""
+        ops = []
+        m = strip_noop(n)
+        while m.get('kind') == 'CXXMemberCallExpr':
+            callee = self.callee_ref(m)
+            nm = callee.get('name')
+            if nm in ('array', 'matrix') and len(m['inner']) == 1:
+                pass
+            elif nm in ('head', 'col') and len(m['inner']) == 2:
+                ops.append((nm, m['inner'][1]))
+            else:
+                return None
+            if not callee.get('inner'):
+                return None
+            m = strip_noop(callee['inner'][0])
+        if m.get('kind') not in ('MemberExpr', 'DeclRefExpr') or dyn_info(type_of(m)) is None:
+            return None
+        nidx = dyn_info(type_of(m))[1]
+        kinds = [o[0] for o in ops]
+        if (nidx == 1 and kinds not in ([], ['head'])) or (nidx == 2 and kinds not in (['col'], ['head', 'col'])):
+            return None
+        try:
+            root, path = self.resolve_lvalue(m, env)
+        except Untranslatable:
+            return None
+        return root, list(path) + ['m'], strip_cv(type_of(m)) + DYN_COEF, m, ops
+
+    def dynx_compound(self, s, nm, env, k):
+        """`V.head(n).array() *= W.head(n).array();`, `M.col(i).head(n).array() *= …`: the coefficients of the target region are combined
+        with those of the right-hand side (indexed from 0 within the region), every other coefficient is kept"""
+        vw = self.dynx_view(s['inner'][1], env)
+        if vw is None:
+            raise Untranslatable('compound assignment to an unsupported view of a dynamic-size Eigen object')
+        root, path, cty, bn, ops = vw
+        env = env.copy()
+        frame = env.frame
+        pre = []
+        ty = self.tyvar(frame, cty)
+        sty = ty[2]
+        cur = self.read_leaf(env, root, path, ty)
+        rt = type_of(s['inner'][2])
+        op, cls = self.EIG_BIN['operator' + nm[len('operator')]]
+        frame.need(cls, sty)
+        if DYNX_RE.search(rt):
+            R = self.dynx_eval(s['inner'][2], env, pre)
+            if self.dx_nidx(R) != 1:
+                raise Untranslatable('compound assignment of a matrix to a vector view')
+            rhs = lambda r_: self.dx_at(R, [r_])
+        else:
+            x = self.convert(self.eval(s['inner'][2], env, pre), frame, DYNX_RE.search(type_of(s['inner'][1])).group(1))
+            rhs = lambda r_: par(x.t)
+        conds = []
+        col_t = None
+        for kind, an in ops:
+            a = self.eval(an, env, pre)
+            if a.ty != 'i':
+                raise Untranslatable('view argument that is not an integer')
+            if kind == 'head':
+                conds.append(lambda idx, a=a: '0 ≤ %s ∧ %s < %s' % (idx[0], idx[0], par(a.t)))
+            else:
+                col_t = a
+                conds.append(lambda idx, a=a: '%s = %s' % (idx[1], par(a.t)))
+        if not any(kd == 'head' for kd, _ in ops):      # the whole vector / column: rows 0 … rows() - 1
+            rows = self.read_leaf(env, root, path[:-1] + ['rows'], 'i')
+            conds.append(lambda idx: '0 ≤ %s ∧ %s < %s' % (idx[0], idx[0], par(rows.t)))
+        nidx = int(ty[1])
+        binders = ['ρ', 'γ'][:nidx]
+        old = '(%s %s)' % (par(cur.t), ' '.join(binders))
+        cond = ' ∧ '.join(c(binders) for c in reversed(conds))
+        term = 'fun %s => if %s then %s %s %s else %s' % (' '.join(binders), cond, old, op, rhs(binders[0]), old)
+        name = frame.fresh(path_name(self.root_name(frame, root), path))
+        self.write(env, root, path, Sc(name, ty))
+        return self.wrap(pre, ('let', name, term, k(env)))
+
+    def dynx_chain(self, rhs):
+        """the inner assignment node of `M(i, j) = M(j, i) = x` (None: the right-hand side is not such an assignment)"""
+        m = strip_noop(rhs)
+        while m.get('kind') == 'ImplicitCastExpr' and m.get('castKind') == 'LValueToRValue' and m.get('inner'):
+            m = strip_noop(m['inner'][0])
+        if m.get('kind') == 'BinaryOperator' and m.get('opcode') == '=' and self.is_dyn_elem(m['inner'][0]):
+            return m
+        return None
+
+    def exec_dyn_chain(self, lhs, rhs, env, k):
+        """`M(i, j) = N(j, i) = x;`: x is evaluated once and bound, then assigned from the innermost target outwards (the value of an
+        assignment expression is the assigned object — here of the same scalar type, so the value itself)"""
+        frame = env.frame
+        targets = [lhs]
+        m = self.dynx_chain(rhs)
+        while m is not None:
+            targets.append(m['inner'][0])
+            val_n = m['inner'][1]
+            m = self.dynx_chain(val_n)
+        pre = []
+        v = self.eval(val_n, env, pre)
+        tys = set(dyn_info(type_of(strip_noop(strip_noop(t)['inner'][1])))[0] for t in targets)
+        if len(tys) != 1:
+            raise Untranslatable('chained assignment through different scalar types')
+        v = self.convert(v, frame, list(tys)[0])
+        vn = frame.fresh('val')
+        pre.append(('let', vn, unpar(v.t)))
+        for t in reversed(targets):
+            root, path, ty, cur, idx = self.dyn_parts(t, env, pre)
+            helper = 'dynSet%d' % len(idx)
+            self.need_helper(helper)
+            name = frame.fresh(path_name(self.root_name(frame, root), path))
+            pre.append(('let', name, '%s %s %s %s' % (helper, par(cur.t), ' '.join(par(i.t) for i in idx), vn)))
+            self.write(env, root, path, Sc(name, ty))
+        return self.wrap(pre, k(env))
 
     def is_tuple_elem(self, n):
         """`v[i]` with `v` a std::vector of small fixed-size Eigen vectors (checked encoding: a list of coordinate tuples)"""
@@ -4311,6 +4849,9 @@ class Translator:
                 root, path = self.resolve_lvalue(s['inner'][1], env)
                 e2 = env.copy()
                 return self.wrap(pre, self.bind_obj(e2, root, path, obj, k))
+            if nm in ('operator+=', 'operator-=', 'operator*=', 'operator/=') and len(s['inner']) == 3 and self.spec.get('dyn_sizes') \
+                    and DYNX_RE.search(type_of(s['inner'][1])):      # phase 4: `V.head(n).array() *= W.head(n).array();`
+                return self.dynx_compound(s, nm, env, k)
             if nm in ('operator+=', 'operator-=', 'operator*=', 'operator/=') and len(s['inner']) == 3 and self.is_eigen_type(type_of(s['inner'][1])):
                 # phase 2: `a += b`, `a.array() += b`, `a /= s` on fixed-size Eigen objects: coefficient-wise
                 pre = []
@@ -4406,6 +4947,8 @@ class Translator:
         init = [c for c in v.get('inner', []) or [] if 'Expr' in c.get('kind', '') or 'Literal' in c.get('kind', '') or 'Operator' in c.get('kind', '')]
         env = env.copy()
         env.frame.top().root_names.setdefault(vid, name)
+        if self.oracle_class_of(ct) is not None:      # phase 4: `Eigen::JacobiSVD<Matrix> svd(A, flags);` — a local ORACLE object
+            return self.exec_oracle_local(v, init, env, k)
         if self.spec.get('whole_containers') and self.ITER_RE.match(strip_cv(ct)):      # an iterator into a whole container: an index
             return self.exec_iter_decl(v, init, env, k)
         if qt.rstrip().endswith('&'):
@@ -4482,6 +5025,8 @@ class Translator:
         pre = []
         if self.is_vec_elem(lhs):      # phase 2: `v[i] = x` on a std::vector of scalars
             return self.exec_vec_assign(lhs, rhs, op, node, env, k)
+        if self.is_dyn_elem(lhs) and not op and self.dynx_chain(rhs) is not None:      # phase 4: `M(i, j) = M(j, i) = x`
+            return self.exec_dyn_chain(lhs, rhs, env, k)
         if self.is_dyn_elem(lhs):      # phase 3: `M(i, j) = x` on a dynamic Eigen matrix
             return self.exec_dyn_assign(lhs, rhs, op, node, env, k)
         if self.is_list_index(strip_noop(lhs)):
@@ -4772,9 +5317,19 @@ class Translator:
                 bn = strip_noop(tgt)['inner'][1]
                 if root_decl(bn) not in declared:
                     root, path = self.resolve_lvalue(bn, env)
+                    bty = type_of(bn)
+                    if self.spec.get('dyn_sizes'):      # phase 4: the coefficient leaf
+                        path, bty = list(path) + ['m'], strip_cv(type_of(strip_noop(bn))) + DYN_COEF
                     if self.lookup(env, root, list(path)) is None and root not in env.local_roots:
-                        self.read_leaf(env, root, list(path), self.tyvar(env.frame, type_of(bn)))
+                        self.read_leaf(env, root, list(path), self.tyvar(env.frame, bty))
                     found.append((root, tuple(path)))
+                tgt = None
+            if tgt is not None and self.spec.get('dyn_sizes') and DYNX_RE.search(type_of(tgt)) and self.dynx_view(tgt, env) is not None:
+                vroot, vpath = self.dynx_view(tgt, env)[:2]      # phase 4: `M.col(i).head(n).array() *= …` assigns the coefficients of M
+                if root_decl(tgt) not in declared:
+                    if self.lookup(env, vroot, list(vpath)) is None and vroot not in env.local_roots:
+                        self.read_leaf(env, vroot, list(vpath), self.tyvar(env.frame, self.dynx_view(tgt, env)[2]))
+                    found.append((vroot, tuple(vpath)))
                 tgt = None
             if kd == 'CXXMemberCallExpr' and self.callee_ref(n).get('name') in self.VEC_MUTATORS and self.callee_ref(n).get('inner') \
                     and self.is_list(type_of(self.callee_ref(n)['inner'][0])):
@@ -5509,6 +6064,7 @@ def translate(repo, scratch, spec):
     pre = '\n'.join('import ' + m for m in imports) + '\n' + head + 'set_option linter.unusedVariables false\n\nnamespace Romea.Src.%s\nopen Romea %s\n' % (pid, ' '.join(spec.get('opens', [])))
     LIST_OPTS['opaque'] = bool(spec.get('opaque_elements'))
     LIST_OPTS['encoding'] = spec.get('vector_encoding', 'checked')
+    LIST_OPTS['dyn_sizes'] = bool(spec.get('dyn_sizes'))      # phase 4
     if LIST_OPTS['encoding'] not in ('checked', 'plain'):
         raise ValueError("spec key `vector_encoding` must be 'checked' or 'plain'")
     if spec.get('incr_encoding', 'inline') not in ('inline', 'let'):
